@@ -1150,12 +1150,12 @@ Definition cok (s : st) (t : tid) : Prop :=
 Record Ctl (s : st) : Prop := {
   c_ok : forall t, alloc_t s t -> cok s t;
   c_unalloc : forall t, ~ alloc_t s t -> k_ctl (tasks s t) = CDone;
-  c_td : forall t, In (HTaskDone t) (ready s) -> k_ctl (tasks s t) = CDone
+  c_td : forall t, In (HTaskDone t) (ready s) -> alloc_t s t /\ k_ctl (tasks s t) = CDone
 }.
 
 Definition cokx (s : st) (t : tid) : Prop :=
   (alloc_t s t -> cok s t) /\ (~ alloc_t s t -> k_ctl (tasks s t) = CDone) /\
-  (In (HTaskDone t) (ready s) -> k_ctl (tasks s t) = CDone).
+  (In (HTaskDone t) (ready s) -> alloc_t s t /\ k_ctl (tasks s t) = CDone).
 
 Record creq (l : list tid) (s s' : st) : Prop := {
   cq_tcb : tcb l s s';
@@ -1165,7 +1165,10 @@ Record creq (l : list tid) (s s' : st) : Prop := {
   cq_base : forall t, ~ In t l -> alloc_t s t -> base s' t = base s t;
   cq_alloc_s : forall c, alloc_s s c -> alloc_s s' c;
   cq_notg : forall c, alloc_s s c -> notg s c -> notg s' c;
-  cq_td : forall t, In (HTaskDone t) (ready s') -> In (HTaskDone t) (ready s) \/ In t l
+  cq_td : forall t, In (HTaskDone t) (ready s') -> In (HTaskDone t) (ready s) \/ In t l;
+  cq_ids : forall t, alloc_t s t -> k_group (tasks s' t) = k_group (tasks s t) /\
+                                    k_hscope (tasks s' t) = k_hscope (tasks s t) /\
+                                    k_tdran (tasks s' t) = k_tdran (tasks s t)
 }.
 
 Lemma creq_refl l s : creq l s s.
@@ -1182,6 +1185,9 @@ Proof.
   - intros x A. apply H2, H1, A.
   - intros x A N. apply (cq_notg _ _ _ H2); [now apply H1|now apply (cq_notg _ _ _ H1)].
   - intros t A. apply (cq_td _ _ _ H2) in A. destruct A as [A|A]; [|now right]. now apply (cq_td _ _ _ H1).
+  - intros t A. destruct (cq_ids _ _ _ H1 t A) as [E1 [E2 E3]].
+    destruct (cq_ids _ _ _ H2 t (cq_alloc_t _ _ _ H1 t A)) as [F1 [F2 F3]].
+    rewrite F1, F2, F3. now repeat split.
 Qed.
 
 Lemma creq_treq l s s' : treq s s' -> tcb l s s' -> rq_td s s' -> creq l s s'.
@@ -1195,46 +1201,66 @@ Proof.
   - intros x. now rewrite (tq_alloc_s _ _ H).
   - intros x _. now rewrite (tq_notg _ _ H).
   - intros t A. left. now apply Hr.
+  - intros t _. now rewrite (tq_group _ _ H), (tq_hscope _ _ H), (tq_tdran _ _ H).
 Qed.
 
-Lemma Ctl_step l s s' :
-  Ctl s -> creq l s s' -> (forall t, In t l -> cokx s' t) -> Ctl s'.
+Record creq0 (l : list tid) (s s' : st) : Prop := {
+  c0_tcb : tcb l s s';
+  c0_alloc_t : forall t, alloc_t s t -> alloc_t s' t;
+  c0_alloc_t' : forall t, alloc_t s' t -> alloc_t s t \/ In t l;
+  c0_host : forall t x, ~ In t l -> s_host (scopes s' x) = Some t -> s_host (scopes s x) = Some t;
+  c0_base : forall t, ~ In t l -> alloc_t s t -> base s' t = base s t;
+  c0_alloc_s : forall c, alloc_s s c -> alloc_s s' c;
+  c0_notg : forall c, alloc_s s c -> notg s c -> notg s' c;
+  c0_td : forall t, In (HTaskDone t) (ready s') -> In (HTaskDone t) (ready s) \/ In t l
+}.
+
+Lemma creq_creq0 l s s' : creq l s s' -> creq0 l s s'.
+Proof. intros Q. constructor; apply Q. Qed.
+
+Lemma Ctl_step0 l s s' :
+  Ctl s -> creq0 l s s' -> (forall t, In t l -> cokx s' t) -> Ctl s'.
 Proof.
   intros C Q Hl.
   assert (Same : forall t, ~ In t l -> tk_core (tasks s' t) = tk_core (tasks s t)) by apply Q.
   constructor.
   - intros t A. destruct (in_dec Nat.eq_dec t l) as [Hin|Hn]; [destruct (Hl t Hin) as [H _]; now apply H|].
-    destruct (cq_alloc_t' _ _ _ Q t A) as [A0|A0]; [|contradiction].
+    destruct (c0_alloc_t' _ _ _ Q t A) as [A0|A0]; [|contradiction].
     pose proof (Same t Hn) as E. destruct (c_ok _ C t A0) as [K1 [K2 [K3 [K4 K5]]]].
     unfold cok. rewrite (tcore_ctl _ _ E), (tcore_cur _ _ E), (tcore_group _ _ E), (tcore_waiter _ _ E),
       (tcore_tdran _ _ E).
     assert (Hh : (forall x, s_host (scopes s x) <> Some t) -> forall x, s_host (scopes s' x) <> Some t).
-    { intros N x Hx. apply (N x). now apply (cq_host _ _ _ Q t x Hn). }
+    { intros N x Hx. apply (N x). now apply (c0_host _ _ _ Q t x Hn). }
     refine (conj _ (conj _ (conj _ (conj _ _)))).
-    + intros Hc. destruct (K1 Hc) as [E1 [E2 E3]]. rewrite (cq_base _ _ _ Q t Hn A0). auto.
+    + intros Hc. destruct (K1 Hc) as [E1 [E2 E3]]. rewrite (c0_base _ _ _ Q t Hn A0). auto.
     + exact K2.
-    + intros c Hc. destruct (K3 c Hc) as [A1 N1]. split; [exact (cq_alloc_s _ _ _ Q c A1)|now apply (cq_notg _ _ _ Q)].
+    + intros c Hc. destruct (K3 c Hc) as [A1 N1]. split; [exact (c0_alloc_s _ _ _ Q c A1)|now apply (c0_notg _ _ _ Q)].
     + intros Hc. auto.
     + exact K5.
   - intros t A. destruct (in_dec Nat.eq_dec t l) as [Hin|Hn]; [destruct (Hl t Hin) as [_ [H _]]; now apply H|].
-    rewrite (tcore_ctl _ _ (Same t Hn)). apply (c_unalloc _ C). intros A0. apply A. exact (cq_alloc_t _ _ _ Q t A0).
+    rewrite (tcore_ctl _ _ (Same t Hn)). apply (c_unalloc _ C). intros A0. apply A. exact (c0_alloc_t _ _ _ Q t A0).
   - intros t Hin. destruct (in_dec Nat.eq_dec t l) as [Hl'|Hn]; [destruct (Hl t Hl') as [_ [_ H]]; now apply H|].
-    rewrite (tcore_ctl _ _ (Same t Hn)). apply (c_td _ C).
-    destruct (cq_td _ _ _ Q t Hin) as [H|H]; [exact H|contradiction].
+    rewrite (tcore_ctl _ _ (Same t Hn)).
+    destruct (c0_td _ _ _ Q t Hin) as [H|H]; [|contradiction].
+    destruct (c_td _ C t H) as [A E]. split; [exact (c0_alloc_t _ _ _ Q t A)|exact E].
 Qed.
 
+Lemma Ctl_step l s s' :
+  Ctl s -> creq l s s' -> (forall t, In t l -> cokx s' t) -> Ctl s'.
+Proof. intros C Q. apply (Ctl_step0 l s s' C (creq_creq0 _ _ _ Q)). Qed.
+
 (* the running invariant inside one op *)
-Definition Run (l : list tid) (s0 s : st) : Prop := Tree s /\ creq l s0 s.
+Definition Run (l : list tid) (s0 s : st) : Prop := Tree s /\ creq l s0 s /\ rq_td s0 s.
 
 Lemma run_treq l s0 s s' : Run l s0 s -> treq s s' -> tcb l s s' -> rq_td s s' -> Run l s0 s'.
 Proof.
-  intros [T Q] H Hc Hr. split; [eapply Tree_treq; eauto|].
+  intros [T [Q R]] H Hc Hr. split; [eapply Tree_treq; eauto|]. split; [|eapply rq_td_trans; eauto].
   eapply creq_trans; [exact Q|now apply creq_treq].
 Qed.
 
 Lemma run_new_scope l s0 s d sh : Run l s0 s -> Run l s0 (fst (new_scope s d sh)).
 Proof.
-  intros [T Q]. split; [now apply Tree_new_scope|]. eapply creq_trans; [exact Q|].
+  intros [T [Q R]]. split; [now apply Tree_new_scope|]. split; [|exact R]. eapply creq_trans; [exact Q|].
   constructor.
   - apply tcb_same_tasks. reflexivity.
   - intros t A. exact A.
@@ -1244,21 +1270,26 @@ Proof.
   - intros x. apply tn_alloc_s.
   - intros x _ N. exact N.
   - intros t A. left. exact A.
+  - intros t _. now repeat split.
 Qed.
 
 Lemma run_enter l s0 s c t :
   Run l s0 s -> In t l -> alloc_t s t -> k_tdran (tasks s t) = false -> alloc_s s c ->
-  (forall t' g, alloc_t s t' -> k_group (tasks s t') = Some g -> k_hscope (tasks s t') = c ->
+  (s_active (scopes s c) = false ->
+   forall t' g, alloc_t s t' -> k_group (tasks s t') = Some g -> k_hscope (tasks s t') = c ->
      t' = t /\ k_cur (tasks s t) = Some (g_scope (groups s g))) ->
-  (forall g, k_group (tasks s t) = Some g -> g_scope (groups s g) <> c) ->
+  (s_active (scopes s c) = false ->
+   forall g, k_group (tasks s t) = Some g -> g_scope (groups s g) <> c) ->
   Run l s0 (fst (scope_enter s c t)).
 Proof.
-  intros [T Q] Hin At Dt Ac Hh Hg.
+  intros [T [Q R]] Hin At Dt Ac Hh0 Hg0.
   destruct (s_active (scopes s c)) eqn:Ic.
-  { rewrite (scope_enter_fail s c t Ic). now split. }
+  { rewrite (scope_enter_fail s c t Ic). exact (conj T (conj Q R)). }
+  pose proof (Hh0 eq_refl) as Hh. pose proof (Hg0 eq_refl) as Hg.
   destruct (scope_enter_spec s c t Ic) as [_ K].
   pose proof (Tree_enter s c t T At Dt Ac Ic Hh Hg) as T'.
-  split; [eapply Tree_treq; eauto|]. eapply creq_trans; [exact Q|].
+  split; [eapply Tree_treq; eauto|].
+  split; [|eapply rq_td_trans; [exact R|apply rq_td_scope_enter]]. eapply creq_trans; [exact Q|].
   set (s' := fst (scope_enter s c t)) in *.
   constructor.
   - now apply tcb_scope_enter.
@@ -1270,6 +1301,8 @@ Proof.
   - intros x A. apply (tq_alloc_s _ _ K). now apply (te_alloc_s s c t T Ic).
   - intros x _ N. apply (tq_notg _ _ K). now apply (te_notg s c t T Ic).
   - intros t' A. left. now apply (rq_td_scope_enter s c t).
+  - intros t' _. rewrite (tq_group _ _ K), (tq_hscope _ _ K), (tq_tdran _ _ K).
+    now rewrite (te_group s c t T Ic), (te_hscope s c t T Ic), (te_tdran s c t T Ic).
 Qed.
 
 Lemma treq_exit_result s c t exc : exit_ok s c t -> treq (xstate s c t) (fst (scope_exit s c t exc)).
@@ -1288,13 +1321,14 @@ Lemma run_exit l s0 s c t exc :
      (forall g, alloc_g s g -> g_scope (groups s g) = c -> g_tasks (groups s g) = [])) ->
   Run l s0 (fst (scope_exit s c t exc)).
 Proof.
-  intros [T Q] Hin Hside.
+  intros [T [Q R]] Hin Hside.
   destruct (exit_ok_dec s c t) as [Hok|Hno].
-  2:{ rewrite (scope_exit_fail s c t exc Hno). now split. }
+  2:{ rewrite (scope_exit_fail s c t exc Hno). exact (conj T (conj Q R)). }
   destruct (Hside Hok) as [NC [NT NG]].
   pose proof (treq_exit_result s c t exc Hok) as K.
   pose proof (Tree_exit s c t T Hok NC NT NG) as T'.
-  split; [eapply Tree_treq; eauto|]. eapply creq_trans; [exact Q|].
+  split; [eapply Tree_treq; eauto|].
+  split; [|eapply rq_td_trans; [exact R|apply rq_td_scope_exit]]. eapply creq_trans; [exact Q|].
   set (s' := fst (scope_exit s c t exc)) in *.
   constructor.
   - now apply tcb_scope_exit.
@@ -1305,4 +1339,189 @@ Proof.
   - intros x A. apply (tq_alloc_s _ _ K). now apply (tx_alloc_s s c t T Hok).
   - intros x _ N. apply (tq_notg _ _ K). now apply (tx_notg s c t T Hok).
   - intros t' A. left. now apply (rq_td_scope_exit s c t exc).
+  - intros t' _. rewrite (tq_group _ _ K), (tq_hscope _ _ K), (tq_tdran _ _ K).
+    now rewrite (tx_group s c t T Hok), (tx_hscope s c t T Hok), (tx_tdran s c t T Hok).
+Qed.
+
+Lemma stack_bottom s t o l : stack s t o l ->
+  forall x p, In x l -> s_parent (scopes s x) = Some p -> s_host (scopes s p) <> Some t -> Some p = base s t.
+Proof.
+  induction 1 as [|y l Hh Ha Hs IH]; intros x p Hx Hp Hn; [destruct Hx|].
+  destruct Hx as [<-|Hx]; [|now apply (IH x p)].
+  rewrite Hp in Hs. inversion Hs; subst; [reflexivity|contradiction].
+Qed.
+
+Lemma not_tdran_of_host s t x : Tree s -> s_host (scopes s x) = Some t -> k_tdran (tasks s t) = false.
+Proof.
+  intros T H. destruct (k_tdran (tasks s t)) eqn:D; [|reflexivity].
+  destruct (tr_tdran _ T t D) as [_ N]. now apply N in H.
+Qed.
+
+Lemma not_tdran_of_cur s t x : Tree s -> k_cur (tasks s t) = Some x -> k_tdran (tasks s t) = false.
+Proof.
+  intros T H. destruct (k_tdran (tasks s t)) eqn:D; [|reflexivity].
+  destruct (tr_tdran _ T t D) as [E _]. congruence.
+Qed.
+
+Lemma exit_side s c t :
+  Tree s -> exit_ok s c t ->
+  (forall g, alloc_g s g -> g_scope (groups s g) = c -> g_tasks (groups s g) = []) ->
+  (forall x, ~ In x (s_children (scopes s c))) /\
+  (forall t', In t' (s_tasks (scopes s c)) -> t' = t) /\
+  (forall g, alloc_g s g -> g_scope (groups s g) = c -> g_tasks (groups s g) = []).
+Proof.
+  intros T [Ha [Hh Hc]] NG.
+  assert (Based : forall t', alloc_t s t' -> k_tdran (tasks s t') = false -> Some c = base s t' -> False).
+  { intros t' A D B. unfold base in B. destruct (k_group (tasks s t')) as [g'|] eqn:G; [|discriminate].
+    inversion B as [E]. destruct (tr_kgroup _ T t' g' A G) as [Ag _].
+    pose proof (tr_member _ T t' g' A G D) as M. rewrite (NG g' Ag (eq_sym E)) in M. destruct M. }
+  destruct (tr_rank _ T) as [rk Hrk].
+  refine (conj _ (conj _ NG)).
+  - intros x Hx. apply (tr_child _ T) in Hx. destruct Hx as [Hax Hpx].
+    destruct (tr_host_act _ T x Hax) as [t' [Hhx At']].
+    pose proof (not_tdran_of_host s t' x T Hhx) as Dt'.
+    destruct (tr_stack _ T t' At' Dt') as [l [S C]]. pose proof (C x Hax Hhx) as Hin.
+    destruct (Nat.eq_dec t' t) as [->|Hne].
+    + rewrite Hc in S. inversion S as [E0|y l' Hh' Ha' S' E1]; subst; [destruct Hin|].
+      destruct Hin as [<-|Hin].
+      * specialize (Hrk c c Hax Hpx). lia.
+      * pose proof (stack_tail_rank s t c l' rk Hrk S Ha x Hin). specialize (Hrk x c Hax Hpx). lia.
+    + apply (Based t' At' Dt'). eapply stack_bottom; eauto. congruence.
+  - intros t' Ht'. apply (tr_task _ T) in Ht'.
+    destruct (Nat.eq_dec t' t) as [->|Hne]; [reflexivity|exfalso].
+    pose proof (tr_cur_alloc _ T t' c Ht') as At'. pose proof (not_tdran_of_cur s t' c T Ht') as Dt'.
+    destruct (tr_stack _ T t' At' Dt') as [l [S _]]. rewrite Ht' in S.
+    inversion S as [E0|y l' Hh' Ha' S' E1]; subst.
+    + now apply (Based t' At' Dt').
+    + congruence.
+Qed.
+
+Lemma exit_side_pub s c t :
+  Tree s -> notg s c -> exit_ok s c t ->
+  (forall x, ~ In x (s_children (scopes s c))) /\
+  (forall t', In t' (s_tasks (scopes s c)) -> t' = t) /\
+  (forall g, alloc_g s g -> g_scope (groups s g) = c -> g_tasks (groups s g) = []).
+Proof.
+  intros T N Hok. apply exit_side; [exact T|exact Hok|]. intros g A E. now apply N in E.
+Qed.
+
+Lemma exit_side_group s g t :
+  Tree s -> alloc_g s g -> g_tasks (groups s g) = [] -> exit_ok s (g_scope (groups s g)) t ->
+  (forall x, ~ In x (s_children (scopes s (g_scope (groups s g))))) /\
+  (forall t', In t' (s_tasks (scopes s (g_scope (groups s g)))) -> t' = t) /\
+  (forall g', alloc_g s g' -> g_scope (groups s g') = g_scope (groups s g) -> g_tasks (groups s g') = []).
+Proof.
+  intros T A E Hok. apply exit_side; [exact T|exact Hok|]. intros g' A' E'.
+  now rewrite (tr_gscope_inj _ T g' g A' A E').
+Qed.
+
+(* ---- creq facts of the structural steps ---- *)
+Lemma sp_host s g sf x : Tree s -> s_host (scopes (spawn_struct s g sf) x) = s_host (scopes s x).
+Proof.
+  intros T. unfold spawn_struct. cbn. unfold upd.
+  destruct (Nat.eqb x (g_scope (groups s g))) eqn:E1; cbn.
+  - apply Nat.eqb_eq in E1. subst x. destruct (Nat.eqb_spec (g_scope (groups s g)) (nscope s)); [|reflexivity].
+    cbn. rewrite e. symmetry. apply (tr_host_inact _ T). apply tn_inactive. exact T.
+  - destruct (Nat.eqb_spec x (nscope s)); [|reflexivity].
+    cbn. subst x. symmetry. apply (tr_host_inact _ T). apply tn_inactive. exact T.
+Qed.
+
+Lemma sp_task_other s g sf x : x <> ntask s -> tasks (spawn_struct s g sf) x = tasks s x.
+Proof. intros H. unfold spawn_struct. cbn. unfold upd. deq x (ntask s); [contradiction|reflexivity]. Qed.
+
+Lemma sp_gscope s g sf x : g_scope (groups (spawn_struct s g sf) x) = g_scope (groups s x).
+Proof. unfold spawn_struct. cbn. unfold upd. deq x g; reflexivity. Qed.
+
+Lemma run_spawn l s0 s g sf :
+  Run l s0 s -> In (ntask s) l -> alloc_g s g -> s_active (scopes s (g_scope (groups s g))) = true ->
+  Run l s0 (fst (spawn_task s g sf)).
+Proof.
+  intros [T [Q R]] Hin Ag Ha. rewrite spawn_task_eq. cbn [fst].
+  set (s1 := spawn_struct s g sf).
+  set (s' := call_soon (restart s1 (Some (g_scope (groups s g)))) (HStep (ntask s))).
+  assert (K : kframe s1 (restart s1 (Some (g_scope (groups s g))))) by apply kframe_restart.
+  assert (K' : treq s1 s').
+  { eapply treq_trans; [apply kframe_treq, K|apply treq_call_soon]. }
+  split; [apply (Tree_treq s1 s'); [apply Tree_spawn; assumption|exact K']|].
+  assert (R' : rq_td s s').
+  { intros t' A. cbn in A. apply in_app_or in A. destruct A as [A|[A|[]]]; [|discriminate].
+    apply (rq_td_kframe _ _ K) in A. exact A. }
+  split; [|eapply rq_td_trans; [exact R|exact R']].
+  eapply creq_trans; [exact Q|].
+  assert (N1 : ntask s' = S (ntask s)) by (rewrite (tq_ntask _ _ K'); reflexivity).
+  assert (N2 : nscope s' = S (nscope s)) by (rewrite (tq_nscope _ _ K'); reflexivity).
+  assert (N3 : ngroup s' = ngroup s) by (rewrite (tq_ngroup _ _ K'); reflexivity).
+  constructor.
+  - intros t' N. assert (t' <> ntask s) by (intros ->; contradiction).
+    change (tasks s' t') with (tasks (restart s1 (Some (g_scope (groups s g)))) t').
+    rewrite (kf_tasks _ _ K t'). unfold s1. now rewrite sp_task_other.
+  - intros x. unfold alloc_t. rewrite N1. lia.
+  - intros x. unfold alloc_t. rewrite N1. intros A. destruct (Nat.eq_dec x (ntask s)) as [->|N]; [now right|left; lia].
+  - intros t' x _. rewrite (tq_host _ _ K'). unfold s1. now rewrite sp_host.
+  - intros t' N A. rewrite (tq_base _ _ K'). unfold base, s1.
+    assert (t' <> ntask s) by (intros ->; contradiction). rewrite sp_task_other by assumption.
+    destruct (k_group (tasks s t')); [now rewrite sp_gscope|reflexivity].
+  - intros x. unfold alloc_s. rewrite N2. lia.
+  - intros x _ N. apply (tq_notg _ _ K'). intros y Hy. unfold s1. rewrite sp_gscope. apply N.
+    unfold alloc_g in *. exact Hy.
+  - intros t' A. left. now apply R'.
+  - intros t' A. assert (t' <> ntask s) by (unfold alloc_t in A; lia).
+    rewrite (tq_group _ _ K'), (tq_hscope _ _ K'), (tq_tdran _ _ K'). unfold s1.
+    rewrite sp_task_other by assumption. now repeat split.
+Qed.
+
+Lemma run_group_new l s0 s : Run l s0 s -> Run l s0 (gnew_struct s).
+Proof.
+  intros [T [Q R]]. split; [now apply Tree_group_new|]. split; [|exact R]. eapply creq_trans; [exact Q|].
+  constructor.
+  - apply tcb_same_tasks. reflexivity.
+  - intros t A. exact A.
+  - intros t A. left. exact A.
+  - intros t x _. change (scopes (gnew_struct s) x) with (scopes (fst (new_scope s None false)) x).
+    now rewrite (tn_H s None false T).
+  - intros t _ A. unfold base. change (tasks (gnew_struct s) t) with (tasks s t).
+    destruct (k_group (tasks s t)) as [g|] eqn:G; [|reflexivity].
+    destruct (tr_kgroup _ T t g A G) as [[_ Ag] _].
+    unfold gnew_struct. cbn. unfold upd. deq g (ngroup s); [lia|reflexivity].
+  - intros x. unfold alloc_s. cbn. lia.
+  - intros x [_ A] N y Hy. unfold gnew_struct. cbn. unfold upd. deq y (ngroup s).
+    + cbn. lia.
+    + apply N. unfold alloc_g in *. cbn in Hy. lia.
+  - intros t A. left. exact A.
+  - intros t _. now repeat split.
+Qed.
+
+Lemma run_new_root l s0 s : Run l s0 s -> In (ntask s) l -> Run l s0 (root_struct s).
+Proof.
+  intros [T [Q R]] Hin. split; [now apply Tree_new_root|]. split; [|exact R]. eapply creq_trans; [exact Q|].
+  constructor.
+  - intros t' N. assert (t' <> ntask s) by (intros ->; contradiction).
+    unfold root_struct. cbn. unfold upd. deq t' (ntask s); [contradiction|reflexivity].
+  - intros x. unfold alloc_t. cbn. lia.
+  - intros x. unfold alloc_t. cbn. intros A. destruct (Nat.eq_dec x (ntask s)) as [->|N]; [now right|left; lia].
+  - intros t x _ E. exact E.
+  - intros t' N A. assert (t' <> ntask s) by (intros ->; contradiction).
+    unfold base, root_struct. cbn. unfold upd. deq t' (ntask s); [contradiction|reflexivity].
+  - intros x A. exact A.
+  - intros x _ N. exact N.
+  - intros t A. left. exact A.
+  - intros t' A. assert (t' <> ntask s) by (unfold alloc_t in A; lia).
+    unfold root_struct. cbn. unfold upd. deq t' (ntask s); [contradiction|now repeat split].
+Qed.
+
+Lemma creq_finish l s t o : In t l -> creq l s (finish_task s t o).
+Proof.
+  intros Hin. pose proof (treq_finish_task s t o) as K.
+  constructor.
+  - now apply tcb_finish_task.
+  - intros x. now rewrite (tq_alloc_t _ _ K).
+  - intros x A. left. now apply (tq_alloc_t _ _ K).
+  - intros t' x _. now rewrite (tq_host _ _ K).
+  - intros t' _ _. apply (tq_base _ _ K).
+  - intros x. now rewrite (tq_alloc_s _ _ K).
+  - intros x _. now rewrite (tq_notg _ _ K).
+  - intros t' A. unfold finish_task in A. cbn [ready set_running] in A.
+    destruct (k_group (tasks s t)); cbn in A; [|now left].
+    apply in_app_or in A. destruct A as [A|[A|[]]]; [now left|]. inversion A; subst. now right.
+  - intros t' _. now rewrite (tq_group _ _ K), (tq_hscope _ _ K), (tq_tdran _ _ K).
 Qed.
